@@ -22,11 +22,12 @@ import (
 )
 
 type rlpCase struct {
-	Kind   string     `json:"kind"` // "bytes" | "grid"
+	Kind   string     `json:"kind"` // "bytes" | "grid" | "bomb"
 	Target string     `json:"target"`
 	Hex    string     `json:"hex,omitempty"`
 	Value  *valueDesc `json:"value,omitempty"`
 	Mut    string     `json:"mut,omitempty"`
+	Shape  string     `json:"shape,omitempty"`
 }
 
 // ---------------------------------------------------------------- canonical dump
@@ -312,8 +313,14 @@ func (c *checker) rlpExhaustive(maxLen int) (inputs int64) {
 	core.Par(257, func(j int) {
 		counts := make([][4]int, len(targets))
 		var cnt int64
+		streamOK, streamBad := 0, 0
 		one := func(in []byte) {
 			cnt++
+			if c.streamDiff(in, "exhaustive", nil) {
+				streamOK++
+			} else {
+				streamBad++
+			}
 			nt := len(targets)
 			if len(in) >= 3 {
 				nt = coreTargets
@@ -341,6 +348,12 @@ func (c *checker) rlpExhaustive(maxLen int) (inputs int64) {
 			rec(buf)
 		}
 		atomic.AddInt64(&n, cnt)
+		if streamOK > 0 {
+			c.classes.AddN("rlp-exhaustive/Stream/same-trace", streamOK)
+		}
+		if streamBad > 0 {
+			c.classes.AddN("rlp-exhaustive/Stream/mismatch", streamBad)
+		}
 		for ti, t := range targets {
 			for oi, v := range counts[ti] {
 				if v > 0 {
@@ -595,6 +608,13 @@ func (c *checker) checkRealReceipt(r *rlpRoot, g *gridValue, m *receiptMirror, e
 // by the real eth type: no panic).
 func (c *checker) rlpMutations(r *rlpRoot, g *gridValue, enc []byte, local map[string]int) {
 	try := func(in []byte, mut string) {
+		// first through the Stream API: an input on which the in-tree stream
+		// already departs from upstream (reported there) is not handed to the
+		// typed decoders, which allocate what the stream tells them
+		if !c.streamDiff(in, mut, &g.Desc) {
+			local[r.spec.Name+"/stream-mismatch"]++
+			return
+		}
 		local[r.spec.Name+"/"+c.rlpDiff(r.tgt, in, mut, &g.Desc)]++
 		switch r.spec.Name {
 		case "rlp:txdata":
@@ -605,6 +625,13 @@ func (c *checker) rlpMutations(r *rlpRoot, g *gridValue, enc []byte, local map[s
 	}
 	for k := 0; k < len(enc); k++ {
 		try(enc[:k], fmt.Sprintf("truncate@%d", k))
+	}
+	if atomic.LoadInt64(&c.rlpUnsafe) != 0 {
+		// a substituted header byte declares an arbitrary size; a decoder that
+		// was seen not to check declared sizes (stream walk, length bombs) is not
+		// given those: between a few GiB and 2^48 the Go runtime aborts the process
+		c.notes.Add("rlp-header-substitutions-skipped:decoder-does-not-bound-declared-sizes")
+		return
 	}
 	buf := make([]byte, len(enc))
 	for _, pos := range rlpStructuralPositions(enc) {
